@@ -62,6 +62,9 @@ func main() {
 	case "seq":
 		seqMain()
 		return
+	case "dirty":
+		dirtyMain()
+		return
 	}
 	seed := flag.Uint64("seed", 1, "seed")
 	n := flag.Int("n", 100, "number of cases")
